@@ -8,5 +8,6 @@ CONSTANTS
   MaxFaults = 1
   EnPersistCall = TRUE
   FixPoisonAppend = TRUE
-INVARIANTS FailStop CrashRecoversAcked AckedBeforeFaultRecovered SyncOrder MutualExclusion
+  ClearFlushes = TRUE
+INVARIANTS FailStop CrashRecoversAcked AckedBeforeFaultRecovered SyncOrder MutualExclusion ClearDropsTablesOnlyWithRecord
 CHECK_DEADLOCK FALSE
